@@ -855,10 +855,12 @@ pub fn cmd_supervise(a: &Args) -> i32 {
         harness.len(),
         wall
     );
-    if !harness.is_empty() {
-        2
-    } else if !reported.is_empty() {
+    // a violation that was minimised and reproduced from its replay file in a fresh process
+    // stands on its own; harness trouble alone (nondeterminism, unreproducible reports) is exit 2
+    if !reported.is_empty() {
         1
+    } else if !harness.is_empty() {
+        2
     } else {
         0
     }
